@@ -6,6 +6,7 @@ import (
 	"log/slog"
 	"os"
 	"testing"
+	_ "time/tzdata" // zones with daylight saving for C12, independent of the host's zoneinfo
 )
 
 // TestMain dispatches on VMODE: worker (default), replay, aggregate.
